@@ -8,6 +8,7 @@ which the driver turns into ANALYSIS-ERROR / exit 2 (never a silent pass, never 
 from __future__ import annotations
 
 import ast
+import copy
 import hashlib
 import os
 from dataclasses import dataclass, field
@@ -273,13 +274,63 @@ class Program:
         self.classes: dict[str, ClassInfo] = {}
         self.digest = ''
         self.fold_log: list[str] = []  # new private helpers folded into their callers (sa/inline.py)
+        self.folded_kept: set[tuple[str, str]] = set()  # new public methods that were folded into every library call site and kept as units of their own
         self._known = load_known()
         self._known_locals = load_known_locals()
         self._load()
 
     # ------------------------------------------------------------------ loading
+    def _fold_across_modules(self, parsed: list[tuple[str, str, ast.Module]]) -> None:
+        """A *new* method (not in sa/known_units.json) that is called from another module is folded into those call sites too.  Call sites are recognised by name, so this is done
+        only for method names that are defined exactly once in the whole library and are not the name of any unit the rules know.  Module-level names of the method's own module
+        that the spliced code mentions are made visible in the calling module by a synthetic `from <module> import <name>` (analysis only)."""
+        known = self._known or set()
+        known_names = {qn.split('.')[-1] for _, qn in known}
+        defs: dict[str, list[tuple[str, str, ast.AST, str]]] = {}
+        for rel, _src, tree in parsed:
+            for st in tree.body:
+                if isinstance(st, ast.ClassDef):
+                    for m in st.body:
+                        if isinstance(m, (ast.FunctionDef, ast.AsyncFunctionDef)):
+                            defs.setdefault(m.name, []).append((rel, f'{st.name}.{m.name}', m, st.name))
+                elif isinstance(st, (ast.FunctionDef, ast.AsyncFunctionDef)):
+                    defs.setdefault(st.name, []).append((rel, st.name, st, ''))
+        for rel, _src, tree in parsed:
+            foreign = [d[0] for name, d in defs.items() if len(d) == 1 and d[0][3] and d[0][0] != rel and (d[0][0], d[0][1]) not in known and name not in known_names
+                       and not (name.startswith('__') and name.endswith('__'))]
+            if not foreign:
+                continue
+            used = [f for f in foreign if any(isinstance(n, ast.Attribute) and n.attr == f[2].name for n in ast.walk(tree))]
+            if not used:
+                continue
+            before = {id(n) for n in ast.walk(tree)}
+            log = fold_new_helpers(tree, rel, self._known, foreign=used)
+            self.fold_log.extend(log)
+            if not any('the definition stays in its own module' in ln for ln in log):
+                continue
+            # names of the callee's module that the spliced code uses
+            here = {n.id for n in ast.walk(tree) if isinstance(n, ast.Name) and isinstance(n.ctx, ast.Store)} | {a.asname or a.name.split('.')[0] for n in ast.walk(tree) if isinstance(n, (ast.Import, ast.ImportFrom)) for a in n.names} \
+                | {n.name for n in ast.walk(tree) if isinstance(n, (ast.FunctionDef, ast.AsyncFunctionDef, ast.ClassDef))} | {a.arg for n in ast.walk(tree) if isinstance(n, ast.arguments) for a in n.args + n.kwonlyargs + n.posonlyargs}
+            for hrel in {f[0] for f in used}:
+                htree = next(t for r, _s, t in parsed if r == hrel)
+                top = {n.name for n in htree.body if isinstance(n, (ast.FunctionDef, ast.AsyncFunctionDef, ast.ClassDef))} \
+                    | {t.id for n in htree.body if isinstance(n, (ast.Assign, ast.AnnAssign)) for t in (n.targets if isinstance(n, ast.Assign) else [n.target]) if isinstance(t, ast.Name)} \
+                    | {a.asname or a.name.split('.')[0] for n in htree.body if isinstance(n, (ast.Import, ast.ImportFrom)) for a in n.names}
+                new_names = sorted({n.id for n in ast.walk(tree) if id(n) not in before and isinstance(n, ast.Name) and isinstance(n.ctx, ast.Load) and n.id in top and n.id not in here})
+                if new_names:
+                    # re-export through the callee's module: an imported name resolves one hop further
+                    imp_of = {a.asname or a.name.split('.')[0]: n for n in htree.body if isinstance(n, (ast.Import, ast.ImportFrom)) for a in n.names}
+                    direct = [x for x in new_names if x not in imp_of]
+                    if direct:
+                        tree.body.insert(0, ast.ImportFrom(module=hrel[:-3].replace('/', '.'), names=[ast.alias(name=x, asname=None) for x in direct], level=0))
+                    for x in new_names:
+                        if x in imp_of:
+                            tree.body.insert(0, copy.deepcopy(imp_of[x]))
+                    ast.fix_missing_locations(tree)
+
     def _load(self) -> None:
         h = hashlib.sha256()
+        parsed: list[tuple[str, str, ast.Module]] = []
         for rel in LIB_FILES:
             p = os.path.join(self.root, rel)
             if not os.path.exists(p):
@@ -294,6 +345,9 @@ class Program:
                 raise AnchorError(f'{rel} does not parse: {e}')
             tree = normalise_syntax(tree)
             self.fold_log.extend(fold_new_helpers(tree, rel, self._known))
+            parsed.append((rel, src, tree))
+        self._fold_across_modules(parsed)
+        for rel, src, tree in parsed:
             self.fold_log.extend(simplify_after_folding(tree, rel, self._known_locals))
             self.fold_log.extend(propagate_new_aliases(tree, rel, self._known_locals))
             self.fold_log.extend(normalise_counting_loops(tree, rel))
@@ -314,6 +368,12 @@ class Program:
                 self.modules[rel] = mi
                 self._index_module(mi)
         self.digest = h.hexdigest()[:16]
+        import re as _re
+
+        for ln in self.fold_log:
+            m = _re.match(r'(\S+?):(\S+) folded into its \d+ use\(s\)(?: in \S+)? \(\w[\w-]* form\) — (?:kept as a unit|the definition stays)', ln)
+            if m:
+                self.folded_kept.add((m.group(1), m.group(2)))
 
     def _index_module(self, mi: ModuleInfo) -> None:
         for st in mi.tree.body:
